@@ -18,19 +18,29 @@ from . import gates
 from .exporter import QCircuitExporter
 
 
+def _qubit_name(_selfqc, i):
+    """Name of qubit i: the last name mapped to it, or q<i> if it has none"""
+    try:
+        return _selfqc.get_key_by_index(i)
+    except Exception:
+        return f"q{i}"
+
+
 class QasmExporter(QCircuitExporter):
     def __init__(self, version=3):
         self.version = version
 
     def export_v3(self, _selfqc, mode: Literal["circuit", "gate"]):
         gate_qasm = f"gate {_selfqc.name} "
-        gate_qasm += " ".join(_selfqc.qubit_map.keys())
+        gate_qasm += " ".join(
+            _qubit_name(_selfqc, i) for i in range(_selfqc.num_qubits)
+        )
         gate_qasm += " {\n"
         for g, ws, p in _selfqc.gates:
             if issubclass(g.__class__, gates.NopGate):
                 continue
 
-            qbs = list(map(lambda gq: _selfqc.get_key_by_index(gq), ws))
+            qbs = list(map(lambda gq: _qubit_name(_selfqc, gq), ws))
             if p:
                 gate_qasm += f'\t{g.__name__.lower()}({p:.2f}) {" ".join(qbs)}\n'
             else:
@@ -53,13 +63,15 @@ class QasmExporter(QCircuitExporter):
 
     def export_v2(self, _selfqc, mode: Literal["circuit", "gate"]):
         gate_qasm = f"gate {_selfqc.name} "
-        gate_qasm += " ".join(_selfqc.qubit_map.keys())
+        gate_qasm += " ".join(
+            _qubit_name(_selfqc, i) for i in range(_selfqc.num_qubits)
+        )
         gate_qasm += " {\n"
         for g, ws, p in _selfqc.gates:
             if issubclass(g.__class__, gates.NopGate):
                 continue
 
-            qbs = list(map(lambda gq: _selfqc.get_key_by_index(gq), ws))
+            qbs = list(map(lambda gq: _qubit_name(_selfqc, gq), ws))
             if p:
                 gate_qasm += f'\t{g.__name__.lower()}({p:.2f}) {" ".join(qbs)}\n'
             else:
